@@ -601,17 +601,30 @@ def sh_safe(ctx, include_make_recipe=False, rule_id='SH-SAFE'):
                     len(a.args) == 1 and const_eval(
                         repo, e.fn.module, a.args[0]) == "'":
                 reps.append((e, e.call.func.value))
+    want = te.name == 'search'
+
+    def leaf_pols(n_, f_):
+        return [pos for t, pos in F.guard_truths(n_, f_) if t is te.call]
+
     def selected(e):
-        # the quoting branch is the positive branch of a search for bad
-        # characters / the negative branch of a full match of safe ones
-        want = te.name == 'search'
+        # the quoting branch is not the branch where the search for bad
+        # characters failed / the full match of safe ones succeeded ...
         for f_, n_ in e.path:
-            for t, pos in F.guards_pol(n_, f_):
-                if any(x is te.call for x in ast.walk(t)):
-                    neg = isinstance(t, ast.UnaryOp) and isinstance(
-                        t.op, ast.Not)
-                    return (pos != neg) == want
-        return has_call(e.control(), te.name)
+            if (not want) in leaf_pols(n_, f_):
+                return False
+        # ... and every "needs no quotes" result of the string branch is
+        return_sites = []
+        for g, b in F.frames(f, 1):
+            if g.module is not f.module:
+                continue
+            for r in Q.returns(g.node):
+                if r.value is not None and has_const(
+                        F.atoms(r.value, g, b), False) and not has_const(
+                            F.atoms(r.value, g, b), True) and not \
+                        _under_type(F, r, g, 'shell_literal'):
+                    return_sites.append((r, g))
+        return bool(return_sites) and all(
+            (not want) in leaf_pols(r, g) for r, g in return_sites)
     ok = bool(reps) and all(selected(e) for e, _ in reps)
     ctx.ob(R, 'inner_quote_info|bad-char-test-selects-quoting', ok,
            te.call, 'the bad-character test does not select the quoting '
